@@ -90,6 +90,7 @@ template<class K> struct SegCase {
     std::vector<K> keys;
     size_t eps = 1;
     int threads = 1;
+    int procs = 32; ///< what the interposed omp_get_num_procs() reports: c = min(procs, threads, 20)
     std::string family;
 };
 
@@ -105,11 +106,13 @@ void seg_case(Ctx &c) {
         sc.keys = c.given->vec<K>("keys");
         sc.eps = c.given->one<size_t>("eps", 1);
         sc.threads = c.given->one<int>("threads", 1);
+        sc.procs = c.given->one<int>("procs", 32);
         sc.family = c.given->one_str("family", "spec");
     } else {
         sc.eps = c.rng.pick<size_t>({0, 0, 1, 1, 2, 3, 4, 8, 16, 64, 128, 1024});
         if (Chunked) {
             sc.threads = 1 + int(c.rng.below(20));
+            if (c.rng.chance(1, 3)) sc.procs = 1 + int(c.rng.below(24)); // fewer processors than threads: procs bounds the chunks
             size_t maxn = c.thorough() ? (c.case_idx % 8 == 7 ? (size_t(1) << 20) : (size_t(1) << 18)) : (size_t(1) << 16);
             size_t n = (size_t(1) << 15) + c.rng.below(maxn - (size_t(1) << 15) + 1);
             sc.keys = gen_keys<K>(c.rng, std::max<size_t>(sc.eps, 1), n, sc.family, n);
@@ -157,14 +160,16 @@ void seg_case(Ctx &c) {
         s.set_one("family", sc.family);
         s.set_one("eps", sc.eps);
         s.set_one("threads", sc.threads);
+        s.set_one("procs", sc.procs);
         s.set_vec("keys", sc.keys);
         return s;
     };
-    c.traits = sc.family + ",eps=" + std::to_string(sc.eps) + ",t=" + std::to_string(sc.threads);
+    c.traits = sc.family + ",eps=" + std::to_string(sc.eps) + ",t=" + std::to_string(sc.threads) + ",procs=" + std::to_string(sc.procs);
     Hasher hsh;
     hsh.add_vec(sc.keys);
     hsh.add(sc.eps);
     hsh.add(uint64_t(sc.threads));
+    hsh.add(uint64_t(sc.procs));
     c.input_hash = hsh.h;
     const size_t n = sc.keys.size();
     if (n == 0) return;
@@ -182,7 +187,7 @@ void seg_case(Ctx &c) {
     std::vector<Seg> segs;
     auto in = [&](size_t i) { return sc.keys[i]; };
     auto out = [&](const Seg &s) { segs.push_back(s); };
-    vf_fake_procs = 32;
+    vf_fake_procs = sc.procs;
     omp_set_num_threads(sc.threads);
     pgm_verif::SegRegistry<K>::instance().take();
     pgm_verif::seg_armed().store(true);
@@ -198,7 +203,8 @@ void seg_case(Ctx &c) {
     omp_set_num_threads(1);
     auto scopes = pgm_verif::SegRegistry<K>::instance().take();
     std::sort(scopes.begin(), scopes.end(), [](auto &a, auto &b) { return a.start < b.start; });
-    size_t cexp = (sc.threads <= 1 || n < (size_t(1) << 15)) ? 1 : size_t(std::min(sc.threads, 20));
+    size_t cexp = size_t(std::min(std::min(sc.procs, sc.threads), 20));
+    if (cexp <= 1 || n < (size_t(1) << 15)) cexp = 1;
     if (c.prop("C17")) {
         c.nontrivial = segs.size() >= 2;
         return;
